@@ -52,7 +52,7 @@
      "every instance holds every defaulted attribute" that is not proved). *)
 From Coq Require Import List ZArith Bool Arith Lia.
 From SC Require Import Base.Res Inst.Heap Inst.ClassTable Inst.Model Inst.Framed Inst.FrameProofs
-  Inst.Reach Inst.SepProofs Props.C01 Props.C02 Inst.AtomicProofs Inst.SepMore Inst.SepMore2.
+  Inst.Reach Inst.SepProofs Props.C01 Props.C02 Inst.AtomicProofs Inst.SepMore Inst.SepMore2 Inst.SepMore3.
 Import ListNotations.
 Open Scope nat_scope.
 
@@ -408,6 +408,62 @@ Proof.
   - vm_compute. split; reflexivity.
 Qed.
 
+(* ------------------------------------------------------------------ *)
+(* C08_peers_disjoint over histories, PARTIAL (proofs: coq/Inst/SepMore3.v).
+   Full statement: over every history, two distinct instances created by constructor calls share no
+   mutable cell unless the caller handed the same do_not_copy object to both.
+   Proved: for every history of the alphabet `peer_op_ok` —
+     constructor calls (any keywords except UNCHANGED; a positional key must be a scalar),
+     every helper called copy-on-write (_inplace=False) with scalar arguments and scalar callbacks,
+     deepcopy, argument objects of scalars built by the caller, and the in-place scalar assignment
+     `obj.a = <scalar>` on an instance created by a constructor call of the history, for an attribute
+     nothing is invalidated by —
+   the instances returned by the constructor calls of the history sit at pairwise different cells,
+   each is a live cell, and no cell is reachable from two of them (invariant PD, preserved by every
+   step: SepMore3.peer_step).  Tables: no do_not_copy=True classes, no do_not_copy attributes,
+   scalar_table, tgb.
+   Proviso (what keeps this partial): every heap an operation of the history starts from is free of
+   dangling references (`run_wf`; decidable: `run_wfb`, lemma run_wfb_ok).  Still missing beyond that:
+   a proof that the library never stores a reference to a cell that does not exist; in-place
+   del / reset / with_<attr> / element helpers and attributes with dependants in the alphabet;
+   instances obtained as copies; do_not_copy attributes. *)
+Theorem C08_peers_disjoint_history_partial :
+  forall ct, no_dnc_classes ct -> scalar_table ct -> tgb ct = true -> no_dnc_attrs ct ->
+  forall ops s roots,
+    ops_ok ct (length roots) [] ops -> run_wf ct s roots ops ->
+    forall i j ci pi kwi fi cj pj kwj fj li lj,
+      nth_error ops i = Some (OpConstruct ci pi kwi, fi) ->
+      nth_error ops j = Some (OpConstruct cj pj kwj, fj) -> i <> j ->
+      nth (length roots + i) (snd (run_ops ct s roots ops)) VNone = VRef li ->
+      nth (length roots + j) (snd (run_ops ct s roots ops)) VNone = VRef lj ->
+      li <> lj /\
+      forall z, reach (heap (fst (run_ops ct s roots ops))) li z ->
+                reach (heap (fst (run_ops ct s roots ops))) lj z -> False.
+Proof. intros ct H1 H2 H3 H4. exact (ctor_peers_disjoint ct H1 H2 H3 H4). Qed.
+
+(* the invariant itself, for any set T of tracked constructor results to start from *)
+Theorem C08_peers_invariant_preserved :
+  forall ct, no_dnc_classes ct -> scalar_table ct -> tgb ct = true -> no_dnc_attrs ct ->
+  forall ops s roots T,
+    ops_ok ct (length roots) T ops -> run_wf ct s roots ops -> PD s roots T ->
+    PD (fst (run_ops ct s roots ops)) (snd (run_ops ct s roots ops)) (tracked (length roots) T ops).
+Proof. intros ct H1 H2 H3 H4. exact (peers_disjoint_history ct H1 H2 H3 H4). Qed.
+
+(* non-vacuity: p = C(); q = C(); p.n = 7; p.with_n(9); q.with_x(5) — covered alphabet, no dangling
+   reference at any step; the final heap *)
+Example C08_peers_disjoint_nonvacuous :
+  tgb exp_ct = true /\
+  ops_ok exp_ct 1 [] exp_ops /\
+  run_wfb exp_ct (mkst [OList [VInt 1]] 0 None) [VRef 0] exp_ops = true /\
+  (let '(s', roots') := run_ops exp_ct (mkst [OList [VInt 1]] 0 None) [VRef 0] exp_ops in
+   roots' = [VRef 0; VRef 1; VRef 3; VNone; VRef 5; VRef 8] /\
+   heap s' = [OList [VInt 1];
+              OInst 2 [(50, VRef 2); (51, VInt 7)]; OList [VInt 1];
+              OInst 2 [(50, VRef 4); (51, VInt 3)]; OList [VInt 1];
+              OInst 2 [(50, VRef 6); (51, VInt 9)]; OList [VInt 1];
+              OList [VInt 1; VInt 5]; OInst 2 [(50, VRef 7); (51, VInt 3)]; OList [VInt 1]]).
+Proof. exact peers_disjoint_nonvacuous. Qed.
+
 Print Assumptions C08_construct_fresh.
 Print Assumptions C08_default_is_fresh.
 Print Assumptions C08_reset_keeps_defaults_isolated.
@@ -428,3 +484,6 @@ Print Assumptions C08_del_fresh_final_heap.
 Print Assumptions C08_reset_inplace_fresh_final_heap.
 Print Assumptions C08_reset_value_is_not_the_class_default.
 Print Assumptions C08_del_fresh_final_heap_nonvacuous.
+Print Assumptions C08_peers_disjoint_history_partial.
+Print Assumptions C08_peers_invariant_preserved.
+Print Assumptions C08_peers_disjoint_nonvacuous.
